@@ -76,3 +76,9 @@ func forall(lo, hi int, f func(int) bool) bool {
 //@   nosafety
 //@   order Destroy after Save
 //@   order Destroy after Write
+
+// Destroy removes only the WAL files of the checkpoint it is called on.
+//@ func Checkpoint.Destroy
+//@   property C09
+//@   nosafety
+//@   modifies nothing
